@@ -51,7 +51,8 @@ p = V + '/DESIGN.md'
 s = open(p).read()
 i = s.find('## s12  Seeded changes')
 if i >= 0:
-    s = s[:i].rstrip('\n') + '\n\n' + text
+    j = s.find('\n---------------------------------------------------------------------------------------------------\n\n## s13', i)
+    s = s[:i].rstrip('\n') + '\n\n' + text + (s[j:] if j >= 0 else '')
 else:
     s = s.rstrip('\n') + '\n\n---------------------------------------------------------------------------------------------------\n\n' + text
 open(p, 'w').write(s)
